@@ -34,6 +34,10 @@ def run(facts, tier):
     obs += o
     rules.append({"rule": "reader.unbounded-allocation", "instances": len(o), "min": 60,
                   "text": "an image value wider than 16 bits (or a power of two of an image exponent) is validated, or compared with the buffer length, before it sizes an allocation - stream and byte readers"})
+    o = reader_extra.narrow_image_arith(facts)
+    obs += o
+    rules.append({"rule": "narrow image arithmetic", "instances": len(o), "min": 1,
+                  "text": "no 32-bit image field is shifted / multiplied in 32 bits before a size check or allocation (the wrapped value passes the check while the 64-bit capacity does not)"})
     o = reader_extra.serde_string_guard(facts)
     obs += o
     rules.append({"rule": "reader.serde-string", "instances": len(o), "min": 2,
